@@ -12,9 +12,9 @@
     `exit_succeeds` / `claim_succeeds`: in every reachable state a holder's `exitFarm` / `claimRewards`
     can only fail INSIDE the weekly-rewards module (boosted claim, energy clearing) — every other
     guard and checked subtraction of the endpoints is discharged from the invariants.
-    IN FULL (`no_underflow_full`): proved in Props/C05Budget.lean for every history whose
-    `setBoostedYieldsFactors` calls install factors with `cE + cF ≠ 0` (`no_underflow_full_good_holds`);
-    false without that hypothesis (division by `cE + cF = 0`, owner misconfiguration).  Finding F6 — the
+    IN FULL (`no_underflow_full`): proved in Props/C05Budget.lean for EVERY history
+    (`no_underflow_full_holds`; the factor-validation hypothesis `GoodOps` of `no_underflow_full_good_holds`
+    is discharged since the repair of F7: a `setFactors` with `cE + cF = 0` is a failed call).  Finding F6 — the
     per-week subtraction `remainingBoostedRewardsToDistribute(week) −= reward` underflowing after a late
     first `setBoostedYieldsFactors` (corpus/farm/f6_late_config_underflow.ops) — is repaired:
     `claim_boosted_yields_rewards` advances the claim progress also when no config exists;
@@ -237,15 +237,13 @@ example :
 
 /-- the full clause: in every reachable state of an active farm, whoever holds (part of) a position
     can exit with it — no internal counter stands in the way.
-    STATUS.  Before the repair of F6 it was false (`¬ no_underflow_full` was a theorem here, by `decide`
-    on `cxOps`); with the repair that counter-example is gone (`f6_history_repaired`,
-    `no_underflow_full_on_f6`).  Props/C05Budget.lean now PROVES the clause for every history in which
-    every `setBoostedYieldsFactors` installs factors with `cE + cF ≠ 0`
-    (`C05Budget.no_underflow_full_good_holds`, from `exit_always_succeeds`: reserve side here, week budget
-    with payments, liveness of the weekly module), and shows that this hypothesis is needed: as literally
-    stated below — for ALL histories — the clause is false, because the owner can install
-    `cE = cF = 0` and `get_user_rewards_for_week` then divides by zero
-    (`C05Budget.no_underflow_full_needs_factor_validation`; same on the real contracts). -/
+    STATUS: PROVED for ALL histories — `C05Budget.no_underflow_full_holds`.  History of the clause: before the
+    repair of F6 it was false (`¬ no_underflow_full` was a theorem here, by `decide` on `cxOps`); after it,
+    it was proved under `GoodOps` (every `setBoostedYieldsFactors` installs `cE + cF ≠ 0`) and refuted without
+    that hypothesis (finding F7: the endpoint accepted `cE = cF = 0`, `get_user_rewards_for_week` divided by
+    zero).  With F7 repaired (/repo e29f08e; model: `Farm.setFactors` rejects such factors) a bad
+    `setFactors` is a failed transaction, every history equals its `GoodOps` part (`run_filter_good`) and the
+    hypothesis is discharged. -/
 def no_underflow_full : Prop :=
   ∀ (kind : Kind) (same : Bool) (dsc pb : Nat) (produce : Bool) (users : List Nat) (e0 : Nat)
     (ops : List Op), users.Nodup → dsc ≠ 0 →
